@@ -76,7 +76,7 @@ for f, t, ps in [("fresh_chunk_fits", "for every header layout, direction, min a
 v(L + "align_pos", "contract", ["C18", "C13", "C10"], "src/lib.rs::align_pos", ["h_kernel::k_align_pos"], "r == up ? up(pos,min_align) : down(pos,min_align)")
 v(L + "up_align_usize_unchecked", "contract", ["C18", "C13"], "src/lib.rs::up_align_usize_unchecked", [], "up(addr, align)")
 v(L + "down_align_usize", "contract", ["C18", "C13"], "src/lib.rs::down_align_usize", [], "down(addr, align)")
-v(L + "bump_down", "contract", ["C13", "C02"], "src/lib.rs::bump_down", ["h_kernel::k_lib_bump_down"], "down(max(addr-size,0), align)")
+v(L + "bump_down", "contract", ["C13", "C02", "C07"], "src/lib.rs::bump_down", ["h_kernel::k_lib_bump_down"], "down(max(addr-size,0), align)")
 v(L + "min_non_zero_cap", "contract", ["C08"], "src/lib.rs::min_non_zero_cap", [], "8 / 4 / 1 by element size")
 v("kernel::c13::realloc_same_address_up", "lemma", ["C13"], None, [], "size%min_align==0: block ends at new_pos; position reset to align_pos(ptr) re-yields ptr")
 v("kernel::c13::realloc_same_address_down", "lemma", ["C13"], None, [], "downward twin")
@@ -217,8 +217,19 @@ _OB = {
                      "base allocator granting more than requested (a non-multiple of 16): constructors establish wf w.r.t. the grant-derived geometry, chunk size between requested and granted and uses the extra memory, alloc stays inside the content, stats coherent, every chunk released once with a fitting size (checked inside the allocator model)",
                      "K<=3, over-grant 8/24/40 bytes"),
     "ob_second_claim_panics": (["C14"], ["raw_bump::RawBump::claim"], "a second claim does not return (panics)", "should_panic harness"),
-    "ob_claim_guard": (["C14", "C10"], ["bump_claim_guard::BumpClaimGuard::{new,deref,deref_mut,drop}", "traits::BumpAllocatorScope::claim"],
-                       "while the guard lives the original is claimed and fails; allocations through the guard stay live; a scope opened through the guard is fully undone; after drop the original is unclaimed and continues on a real chunk; wf",
+    "ob_with_settings_allocated_w": (["C18", "C10"], ["raw_bump::RawBump::{ensure_satisfies_settings,ensure_scope_satisfies_settings,ensure_satisfies_settings_for_borrow_mut,align_to}"],
+                                     "each of the three conversions (Bump::with_settings, BumpScope::with_settings, borrow_mut_with_settings; target settings guaranteed-allocated or not) on an allocated, unclaimed arena returns with the position a multiple of the new (and old) minimum alignment, allocated bytes grow by < 16, wf",
+                                     "K<=2, (1->8 up), (1->16 down), (1->8 down)"),
+    "ob_by_value_unallocated": (["C05", "C07", "C12"], ["bump_scope::BumpScope::{by_value,try_by_value}", "raw_bump::RawBump::{make_allocated,manually_drop}"],
+                                "by_value / try_by_value on an unallocated arena: exactly one chunk is created, it is the ORIGINAL's current chunk afterwards, allocations through the by-value scope are visible in the original, dropping the original releases every chunk exactly once",
+                                "loop-free; first chunk of the minimum size"),
+    "ob_by_value_allocated": (["C05", "C10"], ["bump_scope::BumpScope::try_by_value", "raw_bump::RawBump::make_allocated"],
+                              "on an arena with chunks by_value creates nothing, shares the current chunk and leaves the arena unchanged; wf", "K=2"),
+    "ob_typed_dealloc": (["C13", "C17", "C10"], ["traits::BumpAllocatorTyped::dealloc (provided method and every override)", "without_dealloc::WithoutDealloc::{deallocate}", "without_shrink::WithoutShrink", "allocator_impl::deallocate"],
+                         "typed dealloc(BumpBox) of the newest box: through the plain scope (and WithoutShrink alone) it is reclaimed and the same layout gets the same address again; through WithoutDealloc at any nesting depth / behind a reference, and with DEALLOCATES=false, allocated bytes, position and current chunk never change; wf",
+                         "K=1 (128-byte hint), one u32 box"),
+    "ob_claim_guard": (["C14", "C10"], ["bump_claim_guard::BumpClaimGuard::{new,deref,deref_mut,drop}", "traits::BumpAllocatorScope::claim", "raw_bump::RawBump::{reserve,make_allocated,prepare_slice_allocation,alloc_slice}"],
+                       "while the guard lives the original is claimed and EVERY request on it fails (alloc, alloc_slice, reserve of any amount incl. 0, make_allocated, prepare_slice_allocation of any capacity); allocations through the guard stay live; a scope opened through the guard is fully undone; after drop the original is unclaimed and continues on a real chunk; wf",
                        "K=2, <=1 allocation through the guard and <=1 inside its inner scope"),
 }
 
@@ -374,6 +385,20 @@ def _stub_h():
           "%s<u16> over the exclusive allocator contract: %s; %s; then into_boxed_slice: the committed slice has the model's contents in slice order, is a live aligned block, committed bytes are accounted; commits stay inside the prepared region with len <= cap (checked inside the stub)"
           % (ty, what, ["requests are served", "every request for new memory is refused: length, capacity, contents unchanged", "a new region (chunk) is refused: length, capacity, contents unchanged"][int(mode)]),
           bound=_STB, timeout=900, inst="UP=%s used=%s n=%s mode=%s" % (up, used, n, mode))
+
+    _sops = {"sop_push": "try_push", "sop_push_str": "try_push_str", "sop_insert": "try_insert", "sop_insert_str": "try_insert_str", "sop_extend_within": "try_extend_from_within",
+             "sop_replace_range": "try_replace_range", "sop_replace_range_shorter": "try_replace_range", "sop_reserve": "try_reserve", "sop_shrink_and_box": "shrink_to_fit"}
+    for m in _re.finditer(r"^    (stub_str_\w+): (true|false), (\d+), \[(\d), (\d)\], \[(\d), (\d)\], (true|false), (true|false), (sop_\w+);", txt, _re.M):
+        name, up, used, a, b, xa, xb, foreign, refused, op = m.groups()
+        k("h_stub::" + name, ["C09", "C07", "C08", "C01"], ["bump_string::BumpString::{try_from_str_in,%s,generic_reserve,as_mut_vec,drop}" % _sops[op], "bump_vec::BumpVec<u8>::{generic_grow_amortized,generic_grow_to}"], "B",
+          "BumpString built from a text with UTF-8 length pattern [%s,%s] (symbolic scalars), then %s with text pattern [%s,%s]; requests %s: on failure length, capacity and buffer unchanged (C07); contents equal std::string::String's after the same operation and are valid UTF-8 (independent validator) (C09); capacity >= len; buffer a live block (C01)"
+          % (a, b, _sops[op], xa, xb, "refused" if refused == "true" else "served"),
+          bound="contract stub instead of the arena; text of two characters with a concrete UTF-8 length pattern, scalar values symbolic; concrete boundary index; reserve amounts over the full usize range", timeout=1200,
+          inst="UP=%s used=%s foreign=%s" % (up, used, foreign))
+    for m in _re.finditer(r"^    (stub_str_bad_index_\w+): (true|false), \[(\d), (\d)\];", txt, _re.M):
+        k("h_stub::" + m.group(1), ["C09"], ["bump_string::BumpString::{try_insert,try_insert_str,try_replace_range,try_extend_from_within,truncate}", "bump_box::BumpBox<str>::assert_char_boundary", "polyfill::slice::range"], "B",
+          "for every index / range that is out of range, inverted or not on a character boundary (symbolic over all of them) try_insert, try_insert_str, try_replace_range (bad start, bad end), try_extend_from_within and truncate never return (must-not-reach cover unsatisfiable; std::string::String panics in exactly these cases)",
+          bound="text with UTF-8 length pattern [%s,%s], scalar values symbolic" % (m.group(3), m.group(4)), timeout=900, should_panic=True)
 
 
 _stub_h()
